@@ -436,6 +436,10 @@ func (r *router) SendContribution(_ context.Context, recipient *core.Endpoint, a
 			sendVec[len(sendVec)-1] = *other.GetPublicKey()
 		case "vvecshort":
 			sendVec = vVec[:len(vVec)-1]
+		case "vvecempty":
+			sendVec = nil // no entries at all
+		case "vvecone":
+			sendVec = vVec[:1]
 		case "vveclong":
 			var other bls.SecretKey
 			other.SetByCSPRNG()
@@ -443,7 +447,7 @@ func (r *router) SendContribution(_ context.Context, recipient *core.Endpoint, a
 		case "vveclongzero":
 			// a longer vector whose extra entry is the identity: the share still verifies against it
 			sendVec = append(append([]bls.PublicKey{}, vVec...), bls.PublicKey{})
-		case "replyshare", "replyvvecshort", "replyvveclong":
+		case "replyshare", "replyvvecshort", "replyvveclong", "replyvvecempty":
 			replyAlter = f.kind
 		}
 	}
@@ -477,6 +481,8 @@ func (r *router) SendContribution(_ context.Context, recipient *core.Endpoint, a
 		rs.SetByCSPRNG()
 	case "replyvvecshort":
 		rv = rv[:len(rv)-1]
+	case "replyvvecempty":
+		rv = nil
 	case "replyvveclong":
 		rv = append(rv, bls.PublicKey{})
 	}
@@ -1086,6 +1092,8 @@ func dkgEngine(workdir string) {
 		// share ownership: what does `owner` hand to caller `asker` in reply to a valid contribution?
 		case "shareowner":
 			res = c.shareOwner(u64(f[1]), u64(f[2]), unhexStr(f[3]))
+		case "shareowners":
+			res = c.shareOwners(u64(f[1]), unhexStr(f[2]))
 		default:
 			res = "bad-op " + line
 		}
@@ -1142,6 +1150,33 @@ func errClassH(err error) string {
 // valid contribution; the reply's share must verify against the owner's vector at the ASKER's id and
 // at no other participant's id.
 func (c *cluster) shareOwner(owner, asker uint64, account string) string {
+	return c.shareOwnerHold(owner, asker, account, nil)
+}
+
+// shareOwners: every lower participant sends its contribution to `owner`, one call after the other; the replies are
+// examined only after ALL calls have been handled.  Each must carry the share computed for its own caller.
+func (c *cluster) shareOwners(owner uint64, account string) string {
+	var askers []uint64
+	for _, id := range c.ids {
+		if id < owner {
+			askers = append(askers, id)
+		}
+	}
+	held := make([]*pb.ContributeResponse, len(askers))
+	for i, a := range askers {
+		if r := c.shareOwnerHold(owner, a, account, &held[i]); r != "held" {
+			return fmt.Sprintf("asker=%d:%s", a, r)
+		}
+	}
+	for i, a := range askers {
+		if got := c.replyOwners(held[i]); got != fmt.Sprintf("share-for=%d", a) {
+			return fmt.Sprintf("MISMATCH asker=%d %s", a, got)
+		}
+	}
+	return fmt.Sprintf("ok=%d", len(askers))
+}
+
+func (c *cluster) shareOwnerHold(owner, asker uint64, account string, hold **pb.ContributeResponse) string {
 	ow, as := c.insts[owner], c.insts[asker]
 	if ow == nil || as == nil {
 		return "bad:inst"
@@ -1181,6 +1216,17 @@ func (c *cluster) shareOwner(owner, asker uint64, account string) string {
 	if err != nil {
 		return "E:refused"
 	}
+	if hold != nil {
+		// the caller looks at the reply later (as the gRPC server does: it encodes the message after the handler and the
+		// interceptors have returned, while other calls are being handled)
+		*hold = res
+		return "held"
+	}
+	return c.replyOwners(res)
+}
+
+// replyOwners: for which participant ids does the share in a contribution reply verify against the reply's vector?
+func (c *cluster) replyOwners(res *pb.ContributeResponse) string {
 	var share bls.SecretKey
 	if err := share.Deserialize(res.GetSecret()); err != nil {
 		return "bad:share"
